@@ -2186,6 +2186,17 @@ impl Kanata {
             && self.dynamic_macro_replay_state.is_none()
             && self.caps_word.is_none()
             && self.vkeys_pending_release.is_empty()
+            && {
+                // The next tick sends the difference between the keys that are down at the OS
+                // output and the keys the layout states hold. If they differ - e.g. a key
+                // pressed by a macro is still down after the macro was cancelled on release -
+                // that tick still has output to produce, so this is not an idle state.
+                let layout = self.layout.b();
+                self.prev_keys
+                    .iter()
+                    .all(|k| layout.keycodes().any(|kc| kc == *k))
+                    && layout.keycodes().all(|kc| self.prev_keys.contains(&kc))
+            }
             && !self.layout.b().states.iter().any(|s| {
                 matches!(s, State::SeqCustomPending(_) | State::SeqCustomActive(_))
                     || (pressed_keys_means_not_idle && matches!(s, State::NormalKey { .. }))
